@@ -58,7 +58,7 @@ CLAIMED = {
         category="exploration",
         design_ref="DESIGN.md 3.7",
         technique="deterministic simulation with crash-point injection on the package-database directory tree and an installer interleaved with the iterator",
-        text="Per run a scratch package database is built from a seeded configuration: 0..8 package directories whose installs are crash-interrupted after j of their '+' files in a per-run write order, stray files, empty/missing/plain-file database paths; other files in package directories; in a third of the runs a simulated installer adds or removes '+' files between next() calls; the iterator is polled again after it finished. The multiset of yielded packages must equal the model's complete directories (changed-during-iteration ones may go either way), with pkgbase/pkgversion split at the last '-', read_metadata returning the stored content, and the MetadataEntry<->filename table a bijection (enumerated completely).",
+        text="Per run a scratch package database is built from a seeded configuration: 0..8 package directories whose installs are crash-interrupted after j of their '+' files in a per-run write order, stray files, empty/missing/plain-file database paths; other files in package directories (among them near-miss names of the mandatory files: <name>.orig, <name>~, the name less its last letter, in lower case, with a leading dot); in twin runs a metadata file that is a link to a file announcing length 0 and delivering content (/proc/version); in a third of the runs a simulated installer adds or removes '+' files between next() calls; the iterator is polled again after it finished. The multiset of yielded packages must equal the model's complete directories (changed-during-iteration ones may go either way), with pkgbase/pkgversion split at the last '-', read_metadata returning the stored content, and the MetadataEntry<->filename table a bijection (enumerated completely).",
         note="The kernel file system is real; readdir order is the one nondeterminism the harness does not own, so every oracle touching it compares as a multiset. Checks run as root: permission faults cannot be produced. Names without '-' or non-UTF-8 names are only checked for 'no panic, others still listed once'.",
     ),
 }
